@@ -586,7 +586,7 @@ impl GremlinTranslator {
                     input: Box::new(input),
                 });
                 let plan = LogicalOperator::Limit(LimitOp {
-                    count: end - start,
+                    count: end.saturating_sub(*start), // an inverted range selects nothing
                     input: Box::new(plan),
                 });
                 Ok((plan, None))
